@@ -28,8 +28,8 @@ ASSUMPTIONS = [
 ]
 
 TYPES = ['all', 'braille', 'handheld', 'print', 'projection', 'speech', 'screen', 'tty', 'tv', 'embossed']
-FEATURES = ['width', 'height', 'device-width', 'color', 'monochrome', 'resolution', 'orientation', 'grid', 'scan']
-VALUES = ['10px', '1.5em', '2', '0', 'landscape', 'portrait', '#fff', '#00ff01', '300dpi', 'red', '-1px']
+FEATURES = ['width', 'height', 'device-width', 'color', 'monochrome', 'resolution', 'orientation', 'grid', 'scan', 'aspect-ratio', 'device-aspect-ratio']
+VALUES = ['10px', '1.5em', '2', '0', 'landscape', 'portrait', '#fff', '#00ff01', '300dpi', 'red', '-1px', '16/9', '4/3', '1/1']
 
 
 @st.composite
